@@ -69,8 +69,37 @@ Go side found by reflection are the ones the static obligations speak about -/
 def e2eKnown (m : String) : Bool :=
   (m.splitOn "/").all fun part => methods.any fun f => f.name == part
 
+/-- `c13.e2e.grp <Method> <dir> <Def> <flags.N> <pattern> <k>` (harness/cmd/vh/c13groups.go): a call in which the
+parameters of definition `Def` conditional on flag bit N (the `true` ones aside) are non-zero (`n`) / zero (`z`) as
+the pattern says, in the schema's order. The schema's answer: a set bit announces every one of them, so the
+request carries them all (a zero as its zero) and the call returns the answer - unless a `z` member is an object
+(nil has no serialisation): then the call must refuse with an error and send nothing. The driver checks the
+operation against the regenerated schema table: the definition exists, has that group with that many members. -/
+def grpMembers (d : Def) (b : Nat) : List Param :=
+  d.params.filter fun p => p.cond == some b && p.ty != STy.prim bTrue
+
+def grpExpect (m dir dn key pat : String) : Option String :=
+  match key.splitOn ".", schemaApi.find? (fun d => d.name.toString == dn) with
+  | [_, bs], some d =>
+    match bs.toNat? with
+    | some b =>
+      let ms := grpMembers d b
+      let ps := pat.toList
+      let isObj := fun (p : Param) => match p.ty with
+        | .ref _ => true
+        | .bare _ => true
+        | _ => false
+      if ms.length < 2 || ms.length != ps.length || !(ps.all fun c => c == 'z' || c == 'n') || !ps.contains 'n'
+         || !(dir == "arg" || (dir == "res" && !d.isFunc)) || !e2eKnown m then none
+      else
+        let refused := (List.zip ms ps).any fun (p, c) => c == 'z' && isObj p
+        some ((if refused then "refused" else "ok") ++ s!" {m} {dir} {dn} {key} {pat}")
+    | none => none
+  | _, _ => none
+
 def handle : List String → String
   | ["c13.report"] => report
+  | ["c13.e2e.grp", m, dir, dn, key, pat, _k] => (grpExpect m dir dn key pat).getD "bad-op"
   | ["c13.e2e", m, a, n, sh, _k] =>
     if (a == "z" || a == "p") && ["plain", "cont", "gz", "salt", "saltgz"].contains sh && e2eKnown m
     then e2eOk m a n sh else "bad-op"
